@@ -769,13 +769,7 @@ Section Roundtrip.
     split; intros.
     - rewrite !de_seq_eq, seq_access_list. reflexivity.
     - rewrite !de_tuple_eq. destruct vs as [|v vs]; [congruence|].
-      unfold value_list. cbn [build tuple_access]. rewrite <- H.
-      assert (Ht : forall ws w, list_take (S (length ws)) w (build ws Null) = SOk (w :: ws)).
-      { clear. induction ws as [|x ws IH]; intros w; [reflexivity|].
-        change (list_take (S (length (x :: ws))) w (build (x :: ws) Null))
-          with (sbind (list_take (S (length ws)) x (build ws Null)) (fun r => SOk (w :: r))).
-        rewrite (IH x). reflexivity. }
-      cbn [length]. rewrite (Ht vs v). cbn [sbind].
+      unfold value_list. cbn [build tuple_access]. rewrite list_elems_build. cbn [sbind]. rewrite <- H.
       change (S (length vs)) with (length (v :: vs)). now rewrite firstn_all.
   Qed.
 
@@ -795,6 +789,13 @@ Section Roundtrip.
     revert a; induction xs as [|x xs IH]; intros a Hc Hn; cbn [build list_elems].
     - destruct t; try discriminate; reflexivity.
     - now rewrite IH.
+  Qed.
+
+  (* a tuple rejects every improper list, whatever its length *)
+  Lemma reject_tuple ts v : improper_or_wrong v -> de (TyTuple ts) v = SErr SData.
+  Proof.
+    intros H. rewrite de_tuple_eq. destruct v; cbn [tuple_access improper_or_wrong] in *; try contradiction; try reflexivity.
+    destruct H as [[] ->]. reflexivity.
   Qed.
 
 End Roundtrip.
